@@ -181,6 +181,40 @@ def choosePathString (st : Story) (path : String) (resetCallStack : Bool) (args 
           | other => other
         | other => other
 
+/-- `complete_function_evaluation_from_game`, after the output stream was put back. -/
+def completeFunctionEvaluation (st : Story) (outputBefore : List Obj) (prevBefore : Ptr) (text : String) :
+    Out (Option Val × String) × Story :=
+  let s3 := (st.core.resetOutput (some outputBefore)).setPrevPtr prevBefore
+  match s3.callstack.currentElement with
+  | none => (.panic "callstack.rs:get_current_element", st)
+  | some e =>
+    if e.kind != .functionEvaluationFromGame then
+      (.invalid "Expected external function evaluation to be complete.", st.setCore s3)
+    else
+      let h := e.evalHeightWhenPushed
+      let extra := s3.evalStack.length - h
+      let returned : Option Obj := if extra > 0 then s3.evalStack.head? else none
+      let s4 := { s3 with evalStack := s3.evalStack.drop extra }
+      match s4.callstack.pop (some .functionEvaluationFromGame) with
+      | .err k m => (.err k m, st.setCore s4)
+      | .panic p => (.panic p, st.setCore s4)
+      | .ok cs' =>
+        let rv : Option Val := match returned with
+          | some (.val (.dtarget p)) => some (.str (String.ofList p.toText))
+          | some (.val v) => some v
+          | _ => none
+        (.ok (rv, text), st.setCore (s4.setCallstack cs'))
+
+/-- The loop of `evaluate_function`: continue while possible, collecting the text. -/
+def evalLoop : Nat → Story → String → Out String × Story
+  | 0, st, _ => (.err "ModelFuel" "evaluate_function", st)
+  | fuel + 1, st, acc =>
+    if st.canContinue then
+      match st.cont with
+      | (.ok t, st') => evalLoop fuel st' (acc ++ t)
+      | other => other
+    else (.ok acc, st)
+
 /-- `evaluate_function(name, args)`: returns the value (if any) and the text. -/
 def evaluateFunction (st : Story) (name : String) (args : List (Option Val)) :
     Out (Option Val × String) × Story :=
@@ -197,6 +231,7 @@ def evaluateFunction (st : Story) (name : String) (args : List (Option Val)) :
       | .panic p => (.panic p, st)
       | .ok argv =>
         let outputBefore := st.core.output
+        let prevBefore := st.core.prevPtr
         let s1 := st.core.resetOutput none
         match s1.callstack.push .functionEvaluationFromGame s1.evalStack.length 0 with
         | none => (.panic "callstack.rs:push", st)
@@ -207,40 +242,10 @@ def evaluateFunction (st : Story) (name : String) (args : List (Option Val)) :
           | (.err k m, st2) => (.err k m, st2)
           | (.panic p, st2) => (.panic p, st2)
           | (.ok (), st2) =>
-            let rec loop : Nat → Story → String → Out String × Story
-              | 0, st, _ => (.err "ModelFuel" "evaluate_function", st)
-              | fuel + 1, st, acc =>
-                if st.canContinue then
-                  match st.cont with
-                  | (.ok t, st') => loop fuel st' (acc ++ t)
-                  | other => other
-                else (.ok acc, st)
-            match loop 100000 st2 "" with
+            match evalLoop 100000 st2 "" with
             | (.err k m, st3) => (.err k m, st3)
             | (.panic p, st3) => (.panic p, st3)
-            | (.ok text, st3) =>
-              let s3 := st3.core.resetOutput (some outputBefore)
-              -- complete_function_evaluation_from_game
-              match s3.callstack.currentElement with
-              | none => (.panic "callstack.rs:get_current_element", st3)
-              | some e =>
-                if e.kind != .functionEvaluationFromGame then
-                  (.invalid "Expected external function evaluation to be complete.", st3.setCore s3)
-                else
-                  let h := e.evalHeightWhenPushed
-                  let extra := s3.evalStack.length - h
-                  let returned : Option Obj := if extra > 0 then s3.evalStack.head? else none
-                  let s4 := { s3 with evalStack := s3.evalStack.drop extra }
-                  match s4.callstack.pop (some .functionEvaluationFromGame) with
-                  | .err k m => (.err k m, st3.setCore s4)
-                  | .panic p => (.panic p, st3.setCore s4)
-                  | .ok cs' =>
-                    let st4 := st3.setCore (s4.setCallstack cs')
-                    let rv : Option Val := match returned with
-                      | some (.val (.dtarget p)) => some (.str (String.ofList p.toText))
-                      | some (.val v) => some v
-                      | _ => none
-                    (.ok (rv, text), st4)
+            | (.ok text, st3) => st3.completeFunctionEvaluation outputBefore prevBefore text
 
 /-! ### flows -/
 
